@@ -102,7 +102,9 @@ impl Source {
     /// Tests if this source is alias substitution for the given name.
     ///
     /// Returns true if `self` is `Source::Alias` with the `name` or such an
-    /// original, recursively.
+    /// original, recursively. The original of a `Source::CommandSubst` is also
+    /// examined recursively, so that an alias is not substituted again in a
+    /// command substitution contained in its own replacement.
     ///
     /// ```
     /// // `is_alias_for` returns false for sources other than an Alias
@@ -151,10 +153,15 @@ impl Source {
     /// assert_eq!(source.is_alias_for("baz"), false);
     /// ```
     pub fn is_alias_for(&self, name: &str) -> bool {
-        if let Source::Alias { original, alias } = self {
-            alias.name == name || original.code.source.is_alias_for(name)
-        } else {
-            false
+        match self {
+            Source::Alias { original, alias } => {
+                alias.name == name || original.code.source.is_alias_for(name)
+            }
+            // The content of a command substitution is parsed when the
+            // substitution is executed, but it is still part of the code
+            // containing the substitution.
+            Source::CommandSubst { original } => original.code.source.is_alias_for(name),
+            _ => false,
         }
     }
 
